@@ -170,7 +170,7 @@ func TestVerifC11(t *testing.T) {
 	sort.Strings(reps)
 	rng.Shuffle(len(reps), func(i, j int) { reps[i], reps[j] = reps[j], reps[i] })
 	// always include the historically interesting ones
-	must := []string{"./.", "..", ".", "", "a/../b", "*.Example.COM", ".\x00.", "..\\..", "a./.b", " . ", "é.例", "x@y.z", ".#.#.", "/", "...."}
+	must := []string{"../../victim", "../x", "a/b", "./.", "..", ".", "", "a/../b", "*.Example.COM", ".\x00.", "..\\..", "a./.b", " . ", "é.例", "x@y.z", ".#.#.", "/", "...."}
 	reps = append(must, reps...)
 	nrep := 40
 	if vThorough() {
@@ -248,6 +248,10 @@ func TestVerifC11(t *testing.T) {
 			underRoot("challengeTokensKey", fsys.Filename(ck), i, d)
 			ok := StorageKeys.OCSPStaple(&Certificate{Names: []string{d}}, []byte(i))
 			inNS("ocspStaple", ok, prefixOCSP, d)
+			// (a staple is ONE file directly under the prefix, whatever the certificate's first name is)
+			if rest := strings.TrimPrefix(ok, prefixOCSP+"/"); rest == ok || strings.Contains(rest, "/") {
+				o.Mon("C11 key-outside-namespace builder=ocspStaple", map[string]any{"args": []string{d}, "key": ok, "ns": prefixOCSP, "why": "not a single component under the prefix"})
+			}
 			underRoot("ocspStaple", fsys.Filename(ok), d)
 		}
 		lf := fsys.lockFilename(i)
